@@ -55,6 +55,10 @@ def cases(tier, seed):
                    hold=rnd.choice(['until-release', 'until-release', 'no']),
                    one_write=rnd.random() < 0.5, nrq=rnd.choice([1, 1, 2]),
                    first=rnd.random() < 0.5, seed=seed * 17 + i)
+    for i in range(30 if tier == 'quick' else 1000):
+        yield dict(kind='peer-abort-during-transfer', source=rnd.choice([0, 2]),
+                   reason=rnd.choice([0, 1, 5, 200]), after=rnd.choice([2, 5, 9]),
+                   cap=rnd.choice([2048, 8192]), seed=seed * 23 + i)
     for i in range(12 if tier == 'quick' else 300):
         yield dict(kind='exit-normal-release-unanswered', first=rnd.random() < 0.5,
                    tmo=rnd.choice([1.0, 5.0, 20.0]), seed=seed * 19 + i)
@@ -211,6 +215,56 @@ def run_case(case):
                 v('response-before-abort-lost', 'echo status %r; exc %r' % (got.get('st'), e))
             if not isinstance(e, exceptions.AssociationAbortedError):
                 v('abort-not-surfaced-at-requestor', 'user saw %r' % (e,))
+            elif (e.source, e.reason_diag) != (src, rsn):
+                v('abort-fields-not-preserved', 'peer sent (%d,%d) surfaced %r' % (
+                    src, rsn, (e.source, e.reason_diag)))
+            return _fin(world, viol, case, wire)
+        if kind == 'peer-abort-during-transfer':
+            # a slow receiver (little buffering between the applications) aborts while the
+            # requestor is in the middle of a long multi-fragment C-STORE and keeps reading:
+            # the abort must surface with its source and reason, not as a time-out
+            src, rsn = case['source'], case['reason']
+            world.net.capacity = case['cap']
+
+            class SlowAcc(peers.ScriptedAcceptor):
+                def serve(self):
+                    n = 0
+                    self.recv_size = 1100        # reads about one PDU at a time
+                    while True:
+                        p = self.read_pdu(timeout=500.0)
+                        if p is None or p == 'timeout':
+                            self.close()
+                            return
+                        n += 1
+                        self.sim.sleep(0.25)
+                        if n == case['after']:
+                            self.send(rc.enc_abort(src, rsn))
+                            self.ended = 'aborted-by-script'
+            world.serve_peer(ADDR, lambda sock: SlowAcc(world.sim, sock, max_length=1024))
+            cli.max_pdu_length = 16384
+            # the transfer takes about 30 s at the receiver's pace; the abort comes within 3 s
+            # and may wait for one blocked write (a few seconds at most) - the user's own
+            # time-out is far from both
+            cli.timeout = 14.0
+            got = {}
+
+            def user5():
+                try:
+                    with cli.request_association(remote) as assoc:
+                        got['established'] = True
+                        got['st'] = int(assoc.get_scu(CT)(dataset(120000), 5))
+                except Exception as e:  # pylint: disable=broad-except
+                    got['exc'] = e
+            world.spawn(user5, 'user')
+            world.run(tmax=600)
+            world.drain(5.0)
+            asceprovider.Association._get_dul_message = orig
+            e = got.get('exc')
+            if not got.get('established'):
+                v('association-not-established', repr(e))
+            elif not isinstance(e, exceptions.AssociationAbortedError):
+                v('abort-not-surfaced-at-requestor', 'peer aborted (%d,%d) after %d PDUs of a long '
+                  'transfer; user saw %r' % (src, rsn, case['after'], e))
             elif (e.source, e.reason_diag) != (src, rsn):
                 v('abort-fields-not-preserved', 'peer sent (%d,%d) surfaced %r' % (
                     src, rsn, (e.source, e.reason_diag)))
